@@ -252,7 +252,7 @@ Proof.
   pose proof (digit_run_take_len L buf) as Hl.
   destruct (digit_run 10 (takeN L buf)) as [|d ds]; [discriminate|].
   destruct (digits_value 10 (d :: ds) 0 >? two63 - 1)%Z; [discriminate|].
-  intros H; inversion H; subst. lia.
+  intros H; inversion H; subst. cbn [lenN] in *. lia.
 Qed.
 
 (* the result does not change when bytes are appended behind a byte that already ended the digit run *)
@@ -268,19 +268,747 @@ Proof.
   rewrite digit_run_take_app by (rewrite <- Hk; exact Hd). exact H.
 Qed.
 
-Lemma int64_10_none_stable L buf x :
+(* at most three decimal digits never overflow *)
+Lemma digits3_bound ds : lenN ds <= 3 -> Forall (fun d => 0 <= d < 10)%Z ds ->
+  (0 <= digits_value 10 ds 0 <= 999)%Z.
+Proof.
+  intros Hl Hf.
+  destruct ds as [|d1 [|d2 [|d3 [|d4 ds]]]]; cbn [lenN] in Hl; try lia;
+    repeat match goal with H : Forall _ (_ :: _) |- _ => inversion H; clear H; subst end;
+    unfold digits_value; cbn [fold_left]; lia.
+Qed.
+
+Lemma digit_run_range l : Forall (fun d => 0 <= d < 10)%Z (digit_run 10 l).
+Proof.
+  induction l as [|c r IH]; cbn [digit_run]; [constructor|].
+  destruct (digit_of 10 c) eqn:E; [|constructor].
+  constructor; [apply (digit_of_range 10 c z E)|exact IH].
+Qed.
+
+Lemma int_of_run_small L buf : L <= 3 ->
+  int_of_run L (digit_run 10 (takeN L buf)) =
+  if L =? 0 then None else
+  match digit_run 10 (takeN L buf) with
+  | [] => None
+  | ds => Some (digits_value 10 ds 0, lenN ds)
+  end.
+Proof.
+  intros HL. unfold int_of_run. destruct (L =? 0); [reflexivity|].
+  pose proof (digit_run_take_len L buf) as Hlen.
+  pose proof (digit_run_range (takeN L buf)) as Hr.
+  destruct (digit_run 10 (takeN L buf)) as [|d ds]; [reflexivity|].
+  pose proof (digits3_bound (d :: ds) ltac:(lia) Hr) as Hb.
+  destruct (digits_value 10 (d :: ds) 0 >? two63 - 1)%Z eqn:E; [unfold two63 in E; lia|reflexivity].
+Qed.
+
+Lemma int64_10_none_stable L buf x : L <= 3 ->
   tok_int64 10 false L buf = None -> buf <> [] -> tok_int64 10 false L (buf ++ x) = None.
 Proof.
-  intros H Hb. rewrite int64_10_run in *.
-  destruct (digit_run 10 (takeN L buf)) as [|d ds] eqn:Er.
-  - rewrite digit_run_take_app by (rewrite Er; cbn [lenN]; rewrite dropN_0; exact Hb). rewrite Er. exact H.
-  - (* a non-empty run of at most L digits fails only by overflow; the run is then complete or limited *)
-    unfold int_of_run in *. destruct (L =? 0) eqn:EL; [reflexivity|].
-    destruct (digits_value 10 (d :: ds) 0 >? two63 - 1)%Z eqn:Ev; [|discriminate].
-    destruct (dropN (lenN (d :: ds)) buf) as [|y r] eqn:Edrop.
-    + (* run covers all of buf: appended bytes may extend it *)
-      exfalso. clear H.
-      (* at most L digits ... this branch is unreachable for L <= 18 but we do not need it: *)
-      admit.
-    + rewrite digit_run_take_app by (rewrite Er, Edrop; discriminate). rewrite Er, Ev. reflexivity.
-Abort.
+  intros HL H Hb. rewrite int64_10_run in *. rewrite int_of_run_small in * by exact HL.
+  destruct (L =? 0); [reflexivity|].
+  destruct (digit_run 10 (takeN L buf)) as [|d ds] eqn:Er; [|discriminate].
+  rewrite digit_run_take_app by (rewrite Er; cbn [lenN]; rewrite dropN_0; exact Hb).
+  rewrite Er. reflexivity.
+Qed.
+
+(* ---- skipRequired / skipLineTerminator ---- *)
+Lemma skip_required_spec t b : t <> [] ->
+  skip_required t b = if starts_with b t then SkOk (dropN (lenN t) b)
+                      else if starts_with t b then SkMore else SkBad.
+Proof.
+  intros Ht. unfold skip_required. rewrite tok_skip_nonempty by exact Ht.
+  assert (E0 : (lenN t =? 0) = false) by (destruct t; [congruence|cbn [lenN]; apply N.eqb_neq; lia]).
+  rewrite E0. destruct (starts_with b t); cbn [orb]; reflexivity.
+Qed.
+
+Lemma skip_required_ok_stable t b r x : t <> [] ->
+  skip_required t b = SkOk r -> skip_required t (b ++ x) = SkOk (r ++ x).
+Proof.
+  intros Ht. rewrite !skip_required_spec by exact Ht.
+  destruct (starts_with b t) eqn:E.
+  - intros H; inversion H; subst. rewrite (starts_with_app _ _ x E).
+    rewrite dropN_app_le by (apply starts_with_len; exact E). reflexivity.
+  - destruct (starts_with t b); discriminate.
+Qed.
+
+Lemma skip_required_bad_stable t b x : t <> [] ->
+  skip_required t b = SkBad -> skip_required t (b ++ x) = SkBad.
+Proof.
+  intros Ht. rewrite !skip_required_spec by exact Ht.
+  destruct (starts_with b t) eqn:E1; [discriminate|].
+  destruct (starts_with t b) eqn:E2; [discriminate|]. intros _.
+  destruct (incomparable_app _ _ x E1 E2) as [H1 H2]. rewrite H1, H2. reflexivity.
+Qed.
+
+Lemma resp_crlf_nonnil : resp_crlf <> [].
+Proof. discriminate. Qed.
+
+Lemma skip_line_terminator_nil relaxed : skip_line_terminator relaxed [] = SkMore.
+Proof. destruct relaxed; reflexivity. Qed.
+
+Lemma skip_line_terminator_ok_stable relaxed b r x :
+  skip_line_terminator relaxed b = SkOk r -> skip_line_terminator relaxed (b ++ x) = SkOk (r ++ x).
+Proof.
+  destruct b as [|c b]; [rewrite skip_line_terminator_nil; discriminate|].
+  unfold skip_line_terminator. cbn [tok_skipOne app].
+  destruct (cs_LF c); destruct relaxed; cbn [andb];
+    try (intros H; inversion H; reflexivity);
+    intros H; apply (skip_required_ok_stable _ (c :: b) _ x resp_crlf_nonnil H).
+Qed.
+
+Lemma skip_line_terminator_bad_stable relaxed b x :
+  skip_line_terminator relaxed b = SkBad -> skip_line_terminator relaxed (b ++ x) = SkBad.
+Proof.
+  destruct b as [|c b]; [rewrite skip_line_terminator_nil; discriminate|].
+  unfold skip_line_terminator. cbn [tok_skipOne app].
+  destruct (cs_LF c); destruct relaxed; cbn [andb];
+    try discriminate;
+    intros H; apply (skip_required_bad_stable _ (c :: b) x resp_crlf_nonnil H).
+Qed.
+
+(* ---- ParseResponseStatus ---- *)
+Lemma parse_status_ok_stable relaxed b v r x :
+  parse_status relaxed b = PSok v r -> parse_status relaxed (b ++ x) = PSok v (r ++ x).
+Proof.
+  unfold parse_status. destruct (tok_int64 10 false 3 b) as [[v0 k]|] eqn:E.
+  - destruct (tok_skipOne (delim relaxed) (dropN k b)) as [ok b2] eqn:Es. destruct ok.
+    + intros H. assert (Hn : dropN k b <> []) by (eapply tok_skipOne_true_nonnil; eassumption).
+      rewrite (int64_10_some_stable _ _ _ _ x E Hn).
+      rewrite dropN_app_le by (eapply int64_10_some_len; eassumption).
+      rewrite (tok_skipOne_true_stable _ _ _ x Es).
+      destruct (Z.to_N v0 <=? 99); [discriminate|]. destruct (600 <=? Z.to_N v0); [discriminate|].
+      inversion H; reflexivity.
+    + destruct (dropN k b); discriminate.
+  - destruct b; discriminate.
+Qed.
+
+Lemma parse_status_bad_stable relaxed b o x :
+  parse_status relaxed b = PSbad o -> parse_status relaxed (b ++ x) = PSbad o.
+Proof.
+  unfold parse_status. destruct (tok_int64 10 false 3 b) as [[v0 k]|] eqn:E.
+  - destruct (tok_skipOne (delim relaxed) (dropN k b)) as [ok b2] eqn:Es. destruct ok.
+    + intros H. assert (Hn : dropN k b <> []) by (eapply tok_skipOne_true_nonnil; eassumption).
+      rewrite (int64_10_some_stable _ _ _ _ x E Hn).
+      rewrite dropN_app_le by (eapply int64_10_some_len; eassumption).
+      rewrite (tok_skipOne_true_stable _ _ _ x Es).
+      destruct (Z.to_N v0 <=? 99); [exact H|]. destruct (600 <=? Z.to_N v0); [exact H|discriminate].
+    + destruct (dropN k b) as [|y r] eqn:Ed; [discriminate|]. intros H.
+      assert (Hn : dropN k b <> []) by (rewrite Ed; discriminate).
+      rewrite (int64_10_some_stable _ _ _ _ x E Hn).
+      rewrite dropN_app_le by (eapply int64_10_some_len; eassumption).
+      rewrite Ed. rewrite (tok_skipOne_false_stable _ _ _ x Es ltac:(discriminate)). cbn [app]. exact H.
+  - destruct b as [|c b]; [discriminate|]. intros H.
+    rewrite (int64_10_none_stable 3 (c :: b) x ltac:(lia) E ltac:(discriminate)). exact H.
+Qed.
+
+(* ---- reason phrase + line terminator ---- *)
+Lemma set_reason_id s : p_reason s = [] -> set_reason s [] = s.
+Proof. destruct s; cbn; intros ->; reflexivity. Qed.
+
+Lemma reason_and_eol_ok_stable relaxed s t buf s' k x buf' :
+  reason_and_eol relaxed s t buf = (1%Z, s', k) ->
+  reason_and_eol relaxed s (t ++ x) buf' = (1%Z, s', k ++ x).
+Proof.
+  unfold reason_and_eol.
+  destruct (tok_prefix resp_phraseChars npos t) as [[tk r]|] eqn:Ep.
+  - destruct (skip_line_terminator relaxed r) as [t2| |] eqn:Et; try discriminate.
+    intros H; inversion H; subst.
+    assert (Hr : r <> []) by (intros ->; rewrite skip_line_terminator_nil in Et; discriminate).
+    rewrite (tok_prefix_stable _ _ _ _ _ x Ep Hr).
+    rewrite (skip_line_terminator_ok_stable _ _ _ x Et). reflexivity.
+  - destruct (skip_line_terminator relaxed t) as [t2| |] eqn:Et; try discriminate.
+    intros H; inversion H; subst.
+    assert (Hr : t <> []) by (intros ->; rewrite skip_line_terminator_nil in Et; discriminate).
+    rewrite (tok_prefix_none_stable _ _ _ x Ep Hr).
+    rewrite (skip_line_terminator_ok_stable _ _ _ x Et). reflexivity.
+Qed.
+
+Lemma reason_and_eol_bad_stable relaxed s t buf s' k x buf' :
+  reason_and_eol relaxed s t buf = ((-1)%Z, s', k) ->
+  reason_and_eol relaxed s (t ++ x) buf' = ((-1)%Z, s', buf').
+Proof.
+  unfold reason_and_eol.
+  destruct (tok_prefix resp_phraseChars npos t) as [[tk r]|] eqn:Ep.
+  - destruct (skip_line_terminator relaxed r) as [t2| |] eqn:Et; try discriminate.
+    intros H; inversion H; subst.
+    assert (Hr : r <> []) by (intros ->; rewrite skip_line_terminator_nil in Et; discriminate).
+    rewrite (tok_prefix_stable _ _ _ _ _ x Ep Hr).
+    rewrite (skip_line_terminator_bad_stable _ _ x Et). reflexivity.
+  - destruct (skip_line_terminator relaxed t) as [t2| |] eqn:Et; try discriminate.
+    intros H; inversion H; subst.
+    assert (Hr : t <> []) by (intros ->; rewrite skip_line_terminator_nil in Et; discriminate).
+    rewrite (tok_prefix_none_stable _ _ _ x Ep Hr).
+    rewrite (skip_line_terminator_bad_stable _ _ x Et). reflexivity.
+Qed.
+
+Lemma reason_and_eol_more relaxed s t buf s' k :
+  reason_and_eol relaxed s t buf = (0%Z, s', k) -> s' = set_reason s [] /\ k = buf.
+Proof.
+  unfold reason_and_eol.
+  destruct (tok_prefix resp_phraseChars npos t) as [[tk r]|] eqn:Ep.
+  - destruct (skip_line_terminator relaxed r); try discriminate.
+    intros H; inversion H; subst. split; reflexivity.
+  - destruct (skip_line_terminator relaxed t); try discriminate.
+    intros H; inversion H; subst. split; reflexivity.
+Qed.
+
+Lemma reason_and_eol_ret relaxed s t buf :
+  let r := fst (fst (reason_and_eol relaxed s t buf)) in r = 1%Z \/ r = 0%Z \/ r = (-1)%Z.
+Proof.
+  unfold reason_and_eol.
+  destruct (tok_prefix resp_phraseChars npos t) as [[tk r]|];
+    [destruct (skip_line_terminator relaxed r)|destruct (skip_line_terminator relaxed t)]; cbn; auto.
+Qed.
+
+(* fields untouched by the status-line routines *)
+Lemma reason_and_eol_frame relaxed s t buf r s' k :
+  reason_and_eol relaxed s t buf = (r, s', k) ->
+  p_stage s' = p_stage s /\ p_proto s' = p_proto s /\ p_major s' = p_major s /\ p_minor s' = p_minor s /\
+  p_completed s' = p_completed s /\ p_status s' = p_status s /\ p_mime s' = p_mime s /\ p_code s' = p_code s.
+Proof.
+  unfold reason_and_eol.
+  destruct (tok_prefix resp_phraseChars npos t) as [[tk r0]|];
+    [destruct (skip_line_terminator relaxed r0)|destruct (skip_line_terminator relaxed t)];
+    intros H; inversion H; subst; cbn; repeat split.
+Qed.
+
+(* ---- parseResponseStatusAndReason ---- *)
+Lemma status_and_reason_ok_stable relaxed s t buf s' k x buf' :
+  status_and_reason relaxed s t buf = (1%Z, s', k) ->
+  status_and_reason relaxed s (t ++ x) buf' = (1%Z, s', k ++ x).
+Proof.
+  unfold status_and_reason. destruct (p_completed s).
+  - apply reason_and_eol_ok_stable.
+  - destruct (parse_status relaxed t) as [v t1| |[v|]] eqn:Ep; try discriminate.
+    rewrite (parse_status_ok_stable _ _ _ _ x Ep). apply reason_and_eol_ok_stable.
+Qed.
+
+Lemma status_and_reason_bad_stable relaxed s t buf s' k x buf' :
+  status_and_reason relaxed s t buf = ((-1)%Z, s', k) ->
+  exists k', status_and_reason relaxed s (t ++ x) buf' = ((-1)%Z, s', k').
+Proof.
+  unfold status_and_reason. destruct (p_completed s).
+  - intros H. eexists. eapply reason_and_eol_bad_stable; eassumption.
+  - destruct (parse_status relaxed t) as [v t1| |[v|]] eqn:Ep; try discriminate.
+    + rewrite (parse_status_ok_stable _ _ _ _ x Ep). intros H. eexists.
+      eapply reason_and_eol_bad_stable; eassumption.
+    + rewrite (parse_status_bad_stable _ _ _ x Ep). intros H; inversion H; subst. eexists; reflexivity.
+    + rewrite (parse_status_bad_stable _ _ _ x Ep). intros H; inversion H; subst. eexists; reflexivity.
+Qed.
+
+Lemma status_and_reason_ret relaxed s t buf :
+  let r := fst (fst (status_and_reason relaxed s t buf)) in r = 1%Z \/ r = 0%Z \/ r = (-1)%Z.
+Proof.
+  unfold status_and_reason. destruct (p_completed s); [apply reason_and_eol_ret|].
+  destruct (parse_status relaxed t) as [v t1| |[v|]]; [apply reason_and_eol_ret| | |]; cbn; auto.
+Qed.
+
+Lemma status_and_reason_frame relaxed s t buf r s' k :
+  status_and_reason relaxed s t buf = (r, s', k) ->
+  p_stage s' = p_stage s /\ p_proto s' = p_proto s /\ p_major s' = p_major s /\ p_minor s' = p_minor s /\
+  p_mime s' = p_mime s /\ p_code s' = p_code s.
+Proof.
+  unfold status_and_reason. destruct (p_completed s).
+  - intros H. apply reason_and_eol_frame in H. tauto.
+  - destruct (parse_status relaxed t) as [v t1| |[v|]].
+    + intros H. apply reason_and_eol_frame in H. cbn in H. tauto.
+    + intros H; inversion H; subst; cbn; repeat split.
+    + intros H; inversion H; subst; cbn; repeat split.
+    + intros H; inversion H; subst; cbn; repeat split.
+Qed.
+
+(* the resume checkpoint: re-running from the retained bytes with the saved state continues the same parse *)
+Lemma status_and_reason_more relaxed s t s' k :
+  status_and_reason relaxed s t t = (0%Z, s', k) -> p_reason s = [] ->
+  p_reason s' = [] /\
+  forall x, status_and_reason relaxed s (t ++ x) (t ++ x) = status_and_reason relaxed s' (k ++ x) (k ++ x).
+Proof.
+  intros H Hr. pose proof (set_reason_id s Hr) as Hs.
+  unfold status_and_reason in H. destruct (p_completed s) eqn:Ec.
+  - apply reason_and_eol_more in H as [-> ->]. rewrite Hs.
+    split; [exact Hr|]. intros x. reflexivity.
+  - destruct (parse_status relaxed t) as [v t1| |[v|]] eqn:Ep; try discriminate.
+    + apply reason_and_eol_more in H as [-> ->].
+      rewrite set_reason_id by (cbn; exact Hr).
+      split; [cbn; exact Hr|]. intros x. unfold status_and_reason. rewrite Ec.
+      cbn [p_completed set_completed].
+      rewrite (parse_status_ok_stable _ _ _ _ x Ep). reflexivity.
+    + inversion H; subst. rewrite Hs.
+      split; [exact Hr|]. intros x. reflexivity.
+Qed.
+
+(* ---- parseResponseFirstLine ---- *)
+Lemma http1magic_nonnil : resp_http1magic <> [].
+Proof. discriminate. Qed.
+Lemma icymagic_nonnil : resp_icymagic <> [].
+Proof. discriminate. Qed.
+
+(* an input starting with the ICY magic never starts with the HTTP magic *)
+Lemma icy_not_http b x : starts_with b resp_icymagic = true -> starts_with (b ++ x) resp_http1magic = false.
+Proof.
+  destruct b as [|c b]; [discriminate|]. unfold resp_icymagic, resp_http1magic. cbn [starts_with app].
+  destruct (c =? 73) eqn:E; [|discriminate]. apply N.eqb_eq in E; subst. reflexivity.
+Qed.
+
+Lemma magic_decided m b :
+  starts_with b m = false -> ((lenN b <? lenN m) && starts_with m b) = false ->
+  starts_with m b = false.
+Proof.
+  intros H1 H2. destruct (starts_with m b) eqn:E; [|reflexivity].
+  rewrite andb_true_r in H2. apply N.ltb_ge in H2.
+  rewrite (starts_with_long _ _ E H2) in H1. discriminate.
+Qed.
+
+Ltac fl_magic_split b Eh Ei :=
+  rewrite (tok_skip_nonempty _ b http1magic_nonnil);
+  destruct (starts_with b resp_http1magic) eqn:Eh;
+  [|rewrite (tok_skip_nonempty _ b icymagic_nonnil); destruct (starts_with b resp_icymagic) eqn:Ei].
+
+Lemma first_line_ret relaxed s b :
+  let r := fst (fst (first_line relaxed s b)) in r = 1%Z \/ r = 0%Z \/ r = (-1)%Z.
+Proof.
+  unfold first_line. destruct (negb (proto_eqb (p_proto s) PNone)); [apply status_and_reason_ret|].
+  fl_magic_split b Eh Ei.
+  - destruct (tok_int64 10 false 1 (dropN (lenN resp_http1magic) b)) as [[v k0]|].
+    + destruct (tok_skipOne (delim relaxed) (dropN k0 (dropN (lenN resp_http1magic) b))) as [[] t3];
+        [apply status_and_reason_ret|].
+      destruct (dropN k0 (dropN (lenN resp_http1magic) b)); cbn; auto.
+    + destruct (dropN (lenN resp_http1magic) b); cbn; auto.
+  - apply status_and_reason_ret.
+  - destruct ((lenN b <? lenN resp_http1magic) && starts_with resp_http1magic b); [cbn; auto|].
+    destruct ((lenN b <? lenN resp_icymagic) && starts_with resp_icymagic b); cbn; auto.
+Qed.
+
+(* the shared head of the three stability proofs: what first_line does on b ++ x when the
+   HTTP magic, minor digit and delimiter were found in b *)
+Lemma first_line_http_head relaxed s b x v k0 t3 :
+  proto_eqb (p_proto s) PNone = true ->
+  starts_with b resp_http1magic = true ->
+  tok_int64 10 false 1 (dropN (lenN resp_http1magic) b) = Some (v, k0) ->
+  tok_skipOne (delim relaxed) (dropN k0 (dropN (lenN resp_http1magic) b)) = (true, t3) ->
+  first_line relaxed s (b ++ x) =
+  status_and_reason relaxed (set_proto s PHttp 1 (Z.to_N v)) (t3 ++ x) (t3 ++ x).
+Proof.
+  intros Ep Eh Ei Ed. unfold first_line. rewrite Ep. cbn [negb].
+  rewrite (tok_skip_nonempty _ (b ++ x) http1magic_nonnil).
+  rewrite (starts_with_app _ _ x Eh).
+  rewrite dropN_app_le by (apply starts_with_len; exact Eh).
+  assert (Hn : dropN k0 (dropN (lenN resp_http1magic) b) <> []) by (eapply tok_skipOne_true_nonnil; eassumption).
+  rewrite (int64_10_some_stable _ _ _ _ x Ei Hn).
+  rewrite dropN_app_le by (eapply int64_10_some_len; eassumption).
+  rewrite (tok_skipOne_true_stable _ _ _ x Ed). reflexivity.
+Qed.
+
+Lemma first_line_icy_head relaxed s b x :
+  proto_eqb (p_proto s) PNone = true ->
+  starts_with b resp_icymagic = true ->
+  first_line relaxed s (b ++ x) =
+  status_and_reason relaxed (set_proto s PIcy (p_major s) (p_minor s))
+    (dropN (lenN resp_icymagic) b ++ x) (dropN (lenN resp_icymagic) b ++ x).
+Proof.
+  intros Ep Ei. unfold first_line. rewrite Ep. cbn [negb].
+  rewrite (tok_skip_nonempty _ (b ++ x) http1magic_nonnil).
+  rewrite (icy_not_http _ x Ei).
+  rewrite (tok_skip_nonempty _ (b ++ x) icymagic_nonnil).
+  rewrite (starts_with_app _ _ x Ei).
+  rewrite dropN_app_le by (apply starts_with_len; exact Ei). reflexivity.
+Qed.
+
+Lemma first_line_ok_stable relaxed s b s' k x :
+  first_line relaxed s b = (1%Z, s', k) -> first_line relaxed s (b ++ x) = (1%Z, s', k ++ x).
+Proof.
+  unfold first_line at 1. destruct (proto_eqb (p_proto s) PNone) eqn:Ep; cbn [negb].
+  2:{ intros H. unfold first_line. rewrite Ep. cbn [negb]. eapply status_and_reason_ok_stable; eassumption. }
+  fl_magic_split b Eh Ei.
+  - destruct (tok_int64 10 false 1 (dropN (lenN resp_http1magic) b)) as [[v k0]|] eqn:Ev.
+    + destruct (tok_skipOne (delim relaxed) (dropN k0 (dropN (lenN resp_http1magic) b))) as [[] t3] eqn:Ed.
+      * intros H. rewrite (first_line_http_head _ _ _ x _ _ _ Ep Eh Ev Ed).
+        eapply status_and_reason_ok_stable; eassumption.
+      * destruct (dropN k0 (dropN (lenN resp_http1magic) b)); discriminate.
+    + destruct (dropN (lenN resp_http1magic) b); discriminate.
+  - intros H. rewrite (first_line_icy_head _ _ _ x Ep Ei). eapply status_and_reason_ok_stable; eassumption.
+  - destruct ((lenN b <? lenN resp_http1magic) && starts_with resp_http1magic b) eqn:C1; [discriminate|].
+    destruct ((lenN b <? lenN resp_icymagic) && starts_with resp_icymagic b) eqn:C2; [discriminate|].
+    intros H; inversion H; subst.
+    destruct (incomparable_app _ _ x Eh (magic_decided _ _ Eh C1)) as [A1 A2].
+    destruct (incomparable_app _ _ x Ei (magic_decided _ _ Ei C2)) as [B1 B2].
+    unfold first_line. rewrite Ep. cbn [negb].
+    rewrite (tok_skip_nonempty _ (k ++ x) http1magic_nonnil), A1.
+    rewrite (tok_skip_nonempty _ (k ++ x) icymagic_nonnil), B1.
+    rewrite A2, B2, !andb_false_r. reflexivity.
+Qed.
+
+Lemma first_line_bad_stable relaxed s b s' k x :
+  first_line relaxed s b = ((-1)%Z, s', k) -> exists k', first_line relaxed s (b ++ x) = ((-1)%Z, s', k').
+Proof.
+  unfold first_line at 1. destruct (proto_eqb (p_proto s) PNone) eqn:Ep; cbn [negb].
+  2:{ intros H. unfold first_line. rewrite Ep. cbn [negb]. eapply status_and_reason_bad_stable; eassumption. }
+  fl_magic_split b Eh Ei.
+  - destruct (tok_int64 10 false 1 (dropN (lenN resp_http1magic) b)) as [[v k0]|] eqn:Ev.
+    + destruct (tok_skipOne (delim relaxed) (dropN k0 (dropN (lenN resp_http1magic) b))) as [[] t3] eqn:Ed.
+      * intros H. rewrite (first_line_http_head _ _ _ x _ _ _ Ep Eh Ev Ed).
+        eapply status_and_reason_bad_stable; eassumption.
+      * destruct (dropN k0 (dropN (lenN resp_http1magic) b)) as [|y r] eqn:Edr; [discriminate|].
+        intros H; inversion H; subst. exists (k ++ x).
+        unfold first_line. rewrite Ep. cbn [negb].
+        rewrite (tok_skip_nonempty _ (k ++ x) http1magic_nonnil), (starts_with_app _ _ x Eh).
+        rewrite dropN_app_le by (apply starts_with_len; exact Eh).
+        rewrite (int64_10_some_stable _ _ _ _ x Ev) by (rewrite Edr; discriminate).
+        rewrite dropN_app_le by (eapply int64_10_some_len; eassumption).
+        rewrite Edr in *. rewrite (tok_skipOne_false_stable _ _ _ x Ed) by discriminate.
+        reflexivity.
+    + destruct (dropN (lenN resp_http1magic) b) as [|y r] eqn:Edr; [discriminate|].
+      intros H; inversion H; subst. exists (k ++ x).
+      unfold first_line. rewrite Ep. cbn [negb].
+      rewrite (tok_skip_nonempty _ (k ++ x) http1magic_nonnil), (starts_with_app _ _ x Eh).
+      rewrite dropN_app_le by (apply starts_with_len; exact Eh).
+      rewrite Edr in *.
+      rewrite (int64_10_none_stable 1 (y :: r) x ltac:(lia) Ev ltac:(discriminate)). reflexivity.
+  - intros H. rewrite (first_line_icy_head _ _ _ x Ep Ei). eapply status_and_reason_bad_stable; eassumption.
+  - destruct ((lenN b <? lenN resp_http1magic) && starts_with resp_http1magic b); [discriminate|].
+    destruct ((lenN b <? lenN resp_icymagic) && starts_with resp_icymagic b); discriminate.
+Qed.
+
+Lemma first_line_more relaxed s b s' k :
+  first_line relaxed s b = (0%Z, s', k) -> p_reason s = [] ->
+  p_reason s' = [] /\ p_stage s' = p_stage s /\
+  forall x, first_line relaxed s (b ++ x) = first_line relaxed s' (k ++ x).
+Proof.
+  intros H Hr. unfold first_line in H. destruct (proto_eqb (p_proto s) PNone) eqn:Ep; cbn [negb] in H.
+  2:{ pose proof (status_and_reason_frame _ _ _ _ _ _ _ H) as (F1 & F2 & _).
+      destruct (status_and_reason_more _ _ _ _ _ H Hr) as [R1 R2].
+      split; [exact R1|]. split; [exact F1|]. intros x.
+      unfold first_line. rewrite F2, Ep. cbn [negb]. apply R2. }
+  revert H. fl_magic_split b Eh Ei.
+  - destruct (tok_int64 10 false 1 (dropN (lenN resp_http1magic) b)) as [[v k0]|] eqn:Ev.
+    + destruct (tok_skipOne (delim relaxed) (dropN k0 (dropN (lenN resp_http1magic) b))) as [[] t3] eqn:Ed.
+      * intros H.
+        pose proof (status_and_reason_frame _ _ _ _ _ _ _ H) as (F1 & F2 & _).
+        destruct (status_and_reason_more _ _ _ _ _ H ltac:(cbn; exact Hr)) as [R1 R2].
+        split; [exact R1|]. split; [exact F1|]. intros x.
+        rewrite (first_line_http_head _ _ _ x _ _ _ Ep Eh Ev Ed).
+        unfold first_line. rewrite F2. cbn [p_proto set_proto proto_eqb negb]. apply R2.
+      * destruct (dropN k0 (dropN (lenN resp_http1magic) b)); [|discriminate].
+        intros H; inversion H; subst. auto.
+    + destruct (dropN (lenN resp_http1magic) b); [|discriminate].
+      intros H; inversion H; subst. auto.
+  - intros H.
+    pose proof (status_and_reason_frame _ _ _ _ _ _ _ H) as (F1 & F2 & _).
+    destruct (status_and_reason_more _ _ _ _ _ H ltac:(cbn; exact Hr)) as [R1 R2].
+    split; [exact R1|]. split; [exact F1|]. intros x.
+    rewrite (first_line_icy_head _ _ _ x Ep Ei).
+    unfold first_line. rewrite F2. cbn [p_proto set_proto proto_eqb negb]. apply R2.
+  - destruct ((lenN b <? lenN resp_http1magic) && starts_with resp_http1magic b);
+      [intros H; inversion H; subst; auto|].
+    destruct ((lenN b <? lenN resp_icymagic) && starts_with resp_icymagic b);
+      [intros H; inversion H; subst; auto|discriminate].
+Qed.
+
+(* ---- headersEnd ---- *)
+Lemma headers_end_go_found_stable l x : forall st e f e' f',
+  headers_end_go l st e f = (e', f') -> e' <> 0 -> headers_end_go (l ++ x) st e f = (e', f').
+Proof.
+  induction l as [|c r IH]; intros st e f e' f' H Hne.
+  - cbn [headers_end_go] in H. inversion H; subst. congruence.
+  - cbn [app headers_end_go] in *.
+    destruct (st =? 0); [apply IH; assumption|].
+    destruct (st =? 1).
+    + destruct (c =? 13); [apply IH; assumption|].
+      destruct (c =? 10); [exact H|].
+      destruct ((c =? 32) || (c =? 9)); apply IH; assumption.
+    + destruct (c =? 10); [exact H|]. apply IH; assumption.
+Qed.
+
+Lemma headers_end_go_found_range l : forall st e f e' f',
+  headers_end_go l st e f = (e', f') -> e' <> 0 -> e < e' <= e + lenN l.
+Proof.
+  induction l as [|c r IH]; intros st e f e' f' H Hne.
+  - cbn [headers_end_go] in H. inversion H; subst. congruence.
+  - cbn [headers_end_go lenN] in *.
+    destruct (st =? 0); [apply IH in H; [lia|assumption]|].
+    destruct (st =? 1).
+    + destruct (c =? 13); [apply IH in H; [lia|assumption]|].
+      destruct (c =? 10); [inversion H; subst; lia|].
+      destruct ((c =? 32) || (c =? 9)); (apply IH in H; [lia|assumption]).
+    + destruct (c =? 10); [inversion H; subst; lia|]. apply IH in H; [lia|assumption].
+Qed.
+
+Lemma headers_end_go_late l x : forall st e f f1 e' f',
+  headers_end_go l st e f = (0, f1) -> headers_end_go (l ++ x) st e f = (e', f') -> e' <> 0 ->
+  e + lenN l < e'.
+Proof.
+  induction l as [|c r IH]; intros st e f f1 e' f' H0 H Hne.
+  - cbn [app lenN] in *. apply headers_end_go_found_range in H; [lia|assumption].
+  - cbn [app headers_end_go lenN] in *.
+    destruct (st =? 0); [specialize (IH _ _ _ _ _ _ H0 H Hne); lia|].
+    destruct (st =? 1).
+    + destruct (c =? 13); [specialize (IH _ _ _ _ _ _ H0 H Hne); lia|].
+      destruct (c =? 10); [inversion H0; lia|].
+      destruct ((c =? 32) || (c =? 9)); (specialize (IH _ _ _ _ _ _ H0 H Hne); lia).
+    + destruct (c =? 10); [inversion H0; lia|]. specialize (IH _ _ _ _ _ _ H0 H Hne); lia.
+Qed.
+
+(* ---- grabMimeBlock ---- *)
+Lemma grab_mime_ok_stable limit s b s' k x :
+  grab_mime limit s b = (true, s', k) -> grab_mime limit s (b ++ x) = (true, s', k ++ x).
+Proof.
+  unfold grab_mime.
+  destruct (proto_eqb (p_proto s) PHttp && (p_major s =? 1) || proto_eqb (p_proto s) PIcy).
+  2:{ intros H; inversion H; subst; reflexivity. }
+  unfold headers_end. destruct (headers_end_go b 1 0 false) as [e fold] eqn:E.
+  destruct (e =? 0) eqn:E0.
+  - destruct (limit <=? lenN b + first_line_size s); discriminate.
+  - apply N.eqb_neq in E0.
+    rewrite (headers_end_go_found_stable _ x _ _ _ _ _ E E0).
+    pose proof (headers_end_go_found_range _ _ _ _ _ _ E E0) as Hr.
+    apply N.eqb_neq in E0. rewrite E0.
+    destruct (limit <=? first_line_size s + e); [discriminate|].
+    intros H; inversion H; subst.
+    rewrite takeN_app_le by lia. rewrite dropN_app_le by lia. reflexivity.
+Qed.
+
+Lemma grab_mime_stage limit s b ok s' k :
+  grab_mime limit s b = (ok, s', k) ->
+  (ok = true -> p_stage s' = SDone) /\ (ok = false -> p_stage s' <> SDone -> s' = s /\ k = b).
+Proof.
+  unfold grab_mime.
+  destruct (proto_eqb (p_proto s) PHttp && (p_major s =? 1) || proto_eqb (p_proto s) PIcy).
+  2:{ intros H; inversion H; subst; split; [reflexivity|discriminate]. }
+  destruct (headers_end b) as [e fold]. destruct (e =? 0).
+  - destruct (limit <=? lenN b + first_line_size s); intros H; inversion H; subst;
+      (split; [discriminate|]); cbn; intros _ Hs; [congruence|auto].
+  - destruct (limit <=? first_line_size s + e); intros H; inversion H; subst;
+      (split; [try discriminate; reflexivity|]); cbn; intros; congruence.
+Qed.
+
+Lemma grab_mime_bad_stable limit s b s' k x :
+  grab_mime limit s b = (false, s', k) -> p_stage s <> SDone -> p_stage s' = SDone ->
+  exists k', grab_mime limit s (b ++ x) = (false, s', k').
+Proof.
+  unfold grab_mime.
+  destruct (proto_eqb (p_proto s) PHttp && (p_major s =? 1) || proto_eqb (p_proto s) PIcy); [|discriminate].
+  unfold headers_end. destruct (headers_end_go b 1 0 false) as [e fold] eqn:E.
+  destruct (e =? 0) eqn:E0.
+  - apply N.eqb_eq in E0; subst e.
+    destruct (limit <=? lenN b + first_line_size s) eqn:EL.
+    2:{ intros H Hs Hd; inversion H; subst; congruence. }
+    intros H _ _; inversion H; subst. apply N.leb_le in EL.
+    destruct (headers_end_go (k ++ x) 1 0 false) as [e2 fold2] eqn:E2.
+    destruct (e2 =? 0) eqn:E20.
+    + rewrite lenN_app. replace (limit <=? lenN k + lenN x + first_line_size s) with true
+        by (symmetry; apply N.leb_le; lia). eexists; reflexivity.
+    + apply N.eqb_neq in E20. pose proof (headers_end_go_late _ _ _ _ _ _ _ _ E E2 E20) as Hl.
+      replace (limit <=? first_line_size s + e2) with true by (symmetry; apply N.leb_le; lia).
+      eexists; reflexivity.
+  - apply N.eqb_neq in E0. rewrite (headers_end_go_found_stable _ x _ _ _ _ _ E E0).
+    apply N.eqb_neq in E0. rewrite E0.
+    destruct (limit <=? first_line_size s + e); [|discriminate].
+    intros H _ _; inversion H; subst. eexists; reflexivity.
+Qed.
+
+(* ---- parse(): observation of one call ---- *)
+Definition obs (r : bool * pst * bytes) : outcome :=
+  let '(ok, s1, rest) := r in
+  if needs_more s1 then More s1 rest
+  else if ok then Done (fields_of s1) rest
+  else Bad (p_code s1) (p_status s1).
+
+Lemma step_obs relaxed limit s b : step relaxed limit s b = obs (parse relaxed limit s b).
+Proof. reflexivity. Qed.
+
+Lemma needs_more_done s : p_stage s = SDone -> needs_more s = false.
+Proof. unfold needs_more; intros ->; reflexivity. Qed.
+Lemma needs_more_not_done s : p_stage s <> SDone -> needs_more s = true.
+Proof. unfold needs_more; destruct (p_stage s); try reflexivity; congruence. Qed.
+
+Lemma parse_tail_stable limit s b :
+  (forall f rest, obs (parse_tail limit s b) = Done f rest ->
+     forall x, obs (parse_tail limit s (b ++ x)) = Done f (rest ++ x)) /\
+  (forall c st, obs (parse_tail limit s b) = Bad c st ->
+     forall x, obs (parse_tail limit s (b ++ x)) = Bad c st) /\
+  (forall s1 k, obs (parse_tail limit s b) = More s1 k -> s1 = s /\ k = b).
+Proof.
+  unfold parse_tail. destruct (stage_eqb (p_stage s) SMime) eqn:Es.
+  - assert (Hnd : p_stage s <> SDone) by (destruct (p_stage s); discriminate).
+    destruct (grab_mime limit s b) as [[ok s1] k] eqn:Eg.
+    destruct (grab_mime_stage _ _ _ _ _ _ Eg) as [G1 G2].
+    destruct ok.
+    + specialize (G1 eq_refl). cbn [obs]. rewrite (needs_more_done _ G1). cbn [negb].
+      repeat split; try discriminate.
+      intros f rest H x; inversion H; subst.
+      rewrite (grab_mime_ok_stable _ _ _ _ _ x Eg). cbn [obs]. rewrite (needs_more_done _ G1). reflexivity.
+    + cbn [obs]. destruct (needs_more s1) eqn:En.
+      * assert (Hs1 : p_stage s1 <> SDone) by (intros Hd; rewrite (needs_more_done _ Hd) in En; discriminate).
+        destruct (G2 eq_refl Hs1) as [-> ->].
+        repeat split; try discriminate; inversion H; reflexivity.
+      * assert (Hs1 : p_stage s1 = SDone)
+          by (destruct (p_stage s1) eqn:Ed; unfold needs_more in En; rewrite Ed in En; try discriminate; reflexivity).
+        repeat split; try discriminate.
+        intros c st H x; inversion H; subst.
+        destruct (grab_mime_bad_stable _ _ _ _ _ x Eg Hnd Hs1) as [k' Hk]. rewrite Hk.
+        cbn [obs]. rewrite En. reflexivity.
+  - cbn [obs]. destruct (needs_more s) eqn:En; cbn [negb].
+    + repeat split; try discriminate; inversion H; reflexivity.
+    + repeat split; try discriminate. intros f rest H x; inversion H; subst. reflexivity.
+Qed.
+
+Lemma first_line_stage relaxed s b r s1 k :
+  first_line relaxed s b = (r, s1, k) -> p_stage s1 = p_stage s \/ p_stage s1 = SDone.
+Proof.
+  unfold first_line. destruct (negb (proto_eqb (p_proto s) PNone)).
+  { intros H. apply status_and_reason_frame in H. left; tauto. }
+  fl_magic_split b Eh Ei.
+  - destruct (tok_int64 10 false 1 (dropN (lenN resp_http1magic) b)) as [[v k0]|].
+    + destruct (tok_skipOne (delim relaxed) (dropN k0 (dropN (lenN resp_http1magic) b))) as [[] t3].
+      * intros H. apply status_and_reason_frame in H. left; cbn in H; tauto.
+      * destruct (dropN k0 (dropN (lenN resp_http1magic) b)); intros H; inversion H; subst; auto.
+    + destruct (dropN (lenN resp_http1magic) b); intros H; inversion H; subst; auto.
+  - intros H. apply status_and_reason_frame in H. left; cbn in H; tauto.
+  - destruct ((lenN b <? lenN resp_http1magic) && starts_with resp_http1magic b);
+      [intros H; inversion H; subst; auto|].
+    destruct ((lenN b <? lenN resp_icymagic) && starts_with resp_icymagic b);
+      intros H; inversion H; subst; auto.
+Qed.
+
+Lemma parse_at_mime_done relaxed limit s b :
+  p_stage s = SMime \/ p_stage s = SDone -> parse relaxed limit s b = parse_tail limit s b.
+Proof. unfold parse, parse_first. intros [H|H]; rewrite H; reflexivity. Qed.
+
+Lemma parse_at_first relaxed limit s b :
+  p_stage s = SFirst -> parse relaxed limit s b = parse_first relaxed limit s b.
+Proof. unfold parse. intros ->; reflexivity. Qed.
+
+(* the invariant of a parser that is still waiting for data: before the status line is complete
+   reasonPhrase_ is empty *)
+Definition waiting_inv (s : pst) : Prop :=
+  p_stage s = SMime \/ p_stage s = SDone \/ p_reason s = [].
+
+Lemma parse_first_stable relaxed limit s b :
+  p_stage s = SFirst -> p_reason s = [] ->
+  (forall f rest, obs (parse_first relaxed limit s b) = Done f rest ->
+     forall x, obs (parse_first relaxed limit s (b ++ x)) = Done f (rest ++ x)) /\
+  (forall c st, obs (parse_first relaxed limit s b) = Bad c st ->
+     forall x, obs (parse_first relaxed limit s (b ++ x)) = Bad c st) /\
+  (forall s1 k, obs (parse_first relaxed limit s b) = More s1 k ->
+     waiting_inv s1 /\
+     forall x, obs (parse_first relaxed limit s (b ++ x)) = obs (parse relaxed limit s1 (k ++ x))).
+Proof.
+  intros Hst Hr. unfold parse_first. rewrite Hst. cbn [stage_eqb].
+  destruct (first_line relaxed s b) as [[ret s1] b1] eqn:Ef.
+  pose proof (first_line_ret relaxed s b) as Hret. rewrite Ef in Hret. cbn [fst] in Hret.
+  destruct Hret as [-> | [-> | ->]].
+  - (* first line complete *)
+    cbn [Z.ltb Z.compare andb].
+    assert (Hx : forall x, first_line relaxed s (b ++ x) = (1%Z, s1, b1 ++ x))
+      by (intros x; apply first_line_ok_stable; exact Ef).
+    set (s2 := if stage_eqb (p_stage s1) SFirst then set_stage s1 SMime else s1).
+    assert (Hs2 : p_stage s2 = SMime \/ p_stage s2 = SDone).
+    { destruct (first_line_stage _ _ _ _ _ _ Ef) as [H|H]; subst s2; rewrite H.
+      - rewrite Hst. cbn. auto.
+      - cbn. auto. }
+    destruct (parse_tail_stable limit s2 b1) as (T1 & T2 & T3).
+    split; [|split].
+    + intros f rest H x. rewrite Hx. cbn [Z.ltb Z.compare andb]. fold s2. apply T1; exact H.
+    + intros c st H x. rewrite Hx. cbn [Z.ltb Z.compare andb]. fold s2. apply T2; exact H.
+    + intros s' k H. destruct (T3 _ _ H) as [-> ->]. split.
+      * unfold waiting_inv. tauto.
+      * intros x. rewrite Hx. cbn [Z.ltb Z.compare andb]. fold s2.
+        rewrite (parse_at_mime_done _ _ _ _ Hs2). reflexivity.
+  - (* need more *)
+    cbn [Z.ltb Z.compare andb].
+    destruct (first_line_more _ _ _ _ _ Ef Hr) as (R1 & R2 & R3).
+    unfold parse_tail. rewrite R2, Hst. cbn [stage_eqb obs].
+    rewrite (needs_more_not_done s1) by (rewrite R2, Hst; discriminate).
+    split; [discriminate|]. split; [discriminate|].
+    intros s' k H; inversion H; subst. split; [unfold waiting_inv; tauto|].
+    intros x. rewrite (parse_at_first _ _ _ _ (eq_trans R2 Hst)).
+    unfold parse_first. rewrite R2, Hst. cbn [stage_eqb]. rewrite R3. reflexivity.
+  - (* syntax error *)
+    cbn [Z.ltb Z.compare andb obs needs_more p_stage set_code set_stage stage_eqb negb p_code p_status].
+    split; [discriminate|]. split; [|discriminate].
+    intros c st H x; inversion H; subst.
+    destruct (first_line_bad_stable _ _ _ _ _ x Ef) as [k' Hk]. rewrite Hk.
+    cbn [Z.ltb Z.compare andb obs needs_more p_stage set_code set_stage stage_eqb negb p_code p_status].
+    reflexivity.
+Qed.
+
+Lemma set_stage_reason s x : p_reason (set_stage s x) = p_reason s.
+Proof. reflexivity. Qed.
+
+Theorem step_stable relaxed limit s b : waiting_inv s ->
+  (forall f rest, step relaxed limit s b = Done f rest ->
+     forall x, step relaxed limit s (b ++ x) = Done f (rest ++ x)) /\
+  (forall c st, step relaxed limit s b = Bad c st ->
+     forall x, step relaxed limit s (b ++ x) = Bad c st) /\
+  (forall s1 k, step relaxed limit s b = More s1 k ->
+     waiting_inv s1 /\ forall x, step relaxed limit s (b ++ x) = step relaxed limit s1 (k ++ x)).
+Proof.
+  intros Hinv. rewrite !step_obs.
+  destruct (p_stage s) eqn:Est.
+  - (* HTTP_PARSE_NONE *)
+    assert (Hr : p_reason s = []) by (destruct Hinv as [H|[H|H]]; congruence).
+    destruct b as [|c b].
+    + unfold parse at 1 2 3. rewrite Est. cbn [stage_eqb obs].
+      rewrite (needs_more_not_done s) by (rewrite Est; discriminate).
+      split; [discriminate|]. split; [discriminate|].
+      intros s1 k H; inversion H; subst. split; [exact Hinv|]. intros x. reflexivity.
+    + assert (Hp : forall y, parse relaxed limit s ((c :: b) ++ y) =
+                             parse_first relaxed limit (set_stage s SFirst) ((c :: b) ++ y))
+        by (intros y; unfold parse; rewrite Est; reflexivity).
+      pose proof (Hp []) as Hp0. rewrite app_nil_r in Hp0. rewrite Hp0.
+      destruct (parse_first_stable relaxed limit (set_stage s SFirst) (c :: b) eq_refl Hr) as (A & B & C).
+      split; [|split].
+      * intros f rest H x. rewrite !step_obs, Hp. apply A; exact H.
+      * intros c0 st H x. rewrite !step_obs, Hp. apply B; exact H.
+      * intros s1 k H. destruct (C _ _ H) as [I1 I2]. split; [exact I1|].
+        intros x. rewrite !step_obs, Hp. apply I2.
+  - (* HTTP_PARSE_FIRST *)
+    assert (Hr : p_reason s = []) by (destruct Hinv as [H|[H|H]]; congruence).
+    destruct (parse_first_stable relaxed limit s b Est Hr) as (A & B & C).
+    rewrite (parse_at_first _ _ _ _ Est).
+    split; [|split].
+    + intros f rest H x. rewrite !step_obs, (parse_at_first _ _ _ _ Est). apply A; exact H.
+    + intros c st H x. rewrite !step_obs, (parse_at_first _ _ _ _ Est). apply B; exact H.
+    + intros s1 k H. destruct (C _ _ H) as [I1 I2]. split; [exact I1|].
+      intros x. rewrite !step_obs, (parse_at_first _ _ _ _ Est). apply I2.
+  - (* HTTP_PARSE_MIME *)
+    rewrite (parse_at_mime_done _ _ _ _ (or_introl Est)).
+    destruct (parse_tail_stable limit s b) as (A & B & C).
+    split; [|split].
+    + intros f rest H x. rewrite !step_obs, (parse_at_mime_done _ _ _ _ (or_introl Est)). apply A; exact H.
+    + intros c st H x. rewrite !step_obs, (parse_at_mime_done _ _ _ _ (or_introl Est)). apply B; exact H.
+    + intros s1 k H. destruct (C _ _ H) as [-> ->]. split; [exact Hinv|]. intros x. reflexivity.
+  - (* HTTP_PARSE_DONE *)
+    rewrite (parse_at_mime_done _ _ _ _ (or_intror Est)).
+    destruct (parse_tail_stable limit s b) as (A & B & C).
+    split; [|split].
+    + intros f rest H x. rewrite !step_obs, (parse_at_mime_done _ _ _ _ (or_intror Est)). apply A; exact H.
+    + intros c st H x. rewrite !step_obs, (parse_at_mime_done _ _ _ _ (or_intror Est)). apply B; exact H.
+    + intros s1 k H. destruct (C _ _ H) as [-> ->]. split; [exact Hinv|]. intros x. reflexivity.
+Qed.
+
+Lemma drive_gdrive relaxed limit segs : forall s buf,
+  drive relaxed limit s buf segs = gdrive (step relaxed limit) s buf segs.
+Proof.
+  induction segs as [|x more IH]; intros s buf; cbn [drive gdrive]; [reflexivity|].
+  destruct (step relaxed limit s (buf ++ x)); [apply IH|reflexivity|reflexivity].
+Qed.
+
+(* segmentation independence, general form: from any waiting parser state and retained bytes *)
+Theorem drive_segmentation_independent relaxed limit s buf segs :
+  waiting_inv s -> segs <> [] ->
+  drive relaxed limit s buf segs = step relaxed limit s (buf ++ concat segs).
+Proof.
+  intros Hinv Hne. rewrite drive_gdrive.
+  apply (gdrive_whole (step relaxed limit) waiting_inv); try assumption.
+  - intros s0 b f rest Hi H. apply (proj1 (step_stable relaxed limit s0 b Hi)). exact H.
+  - intros s0 b c st Hi H. apply (proj1 (proj2 (step_stable relaxed limit s0 b Hi))). exact H.
+  - intros s0 b s1 keep Hi H. apply (proj2 (proj2 (step_stable relaxed limit s0 b Hi))). exact H.
+Qed.
+
+Lemma waiting_inv_pst0 : waiting_inv pst0.
+Proof. unfold waiting_inv. right; right; reflexivity. Qed.
+
+Theorem resp_parse_segmentation_independent relaxed limit segs :
+  segs <> [] -> drive relaxed limit pst0 [] segs = step relaxed limit pst0 (concat segs).
+Proof. intros H. apply (drive_segmentation_independent relaxed limit pst0 [] segs waiting_inv_pst0 H). Qed.
